@@ -1,6 +1,22 @@
 package idp
 
-// ApplyLex applies one named byte-level transform. Implemented in lexers.go as they are added.
+import (
+	"bytes"
+	"fmt"
+	"strings"
+
+	"github.com/beevik/etree"
+)
+
+// Lexical layout transforms: they change the bytes of a serialised document but not the
+// infoset a conforming parser delivers (and therefore not what any XML signature covers).
+// They operate on the output of etree's canonical-mode writer, whose shape is predictable:
+// attributes double-quoted, text escaped with &amp; &lt; &gt; &#xD;, attribute values with
+// &amp; &lt; &quot; &#x9; &#xA; &#xD;.
+//
+// CheckLex verifies, for one document, that a transform preserved the parse.
+
+// ApplyLex applies one named transform.
 func ApplyLex(name string, b []byte) []byte {
 	f, ok := lexers[name]
 	if !ok {
@@ -9,4 +25,356 @@ func ApplyLex(name string, b []byte) []byte {
 	return f(b)
 }
 
-var lexers = map[string]func([]byte) []byte{}
+// LexNames lists the transforms in a fixed order.
+var LexNames = []string{"xml-decl", "comment-before-root", "pi-before-root", "comment-after-root",
+	"single-quotes", "attr-order", "tag-whitespace", "expand-empty", "charref-text", "cdata-text", "charref-attr"}
+
+var lexers = map[string]func([]byte) []byte{
+	"xml-decl":            func(b []byte) []byte { return append([]byte("<?xml version=\"1.0\" encoding=\"UTF-8\"?>\n"), b...) },
+	"comment-before-root": func(b []byte) []byte { return append([]byte("<!-- issued by the test IdP -->\n"), b...) },
+	"pi-before-root":      func(b []byte) []byte { return append([]byte("<?idp trace=\"1\"?>"), b...) },
+	"comment-after-root":  func(b []byte) []byte { return append(append([]byte{}, b...), []byte("\n<!-- end -->\n")...) },
+	"single-quotes":       func(b []byte) []byte { return mapTags(b, tagSingleQuotes) },
+	"attr-order":          func(b []byte) []byte { return mapTags(b, tagReverseAttrs) },
+	"tag-whitespace":      func(b []byte) []byte { return mapTags(b, tagWhitespace) },
+	"expand-empty":        func(b []byte) []byte { return mapTags(b, tagExpandEmpty) },
+	"charref-text":        func(b []byte) []byte { return mapText(b, textCharRef) },
+	"cdata-text":          func(b []byte) []byte { return mapText(b, textCDATA) },
+	"charref-attr":        func(b []byte) []byte { return mapTags(b, tagCharRefAttr) },
+}
+
+// segment kinds of a serialised document
+type seg struct {
+	kind int // 0 text, 1 start/empty tag, 2 end tag, 3 other markup (comment, PI, CDATA, directive)
+	s    string
+}
+
+func segments(b []byte) []seg {
+	var out []seg
+	s := string(b)
+	i := 0
+	for i < len(s) {
+		if s[i] != '<' {
+			j := strings.IndexByte(s[i:], '<')
+			if j < 0 {
+				j = len(s) - i
+			}
+			out = append(out, seg{0, s[i : i+j]})
+			i += j
+			continue
+		}
+		switch {
+		case strings.HasPrefix(s[i:], "<!--"):
+			j := strings.Index(s[i:], "-->") + 3
+			out = append(out, seg{3, s[i : i+j]})
+			i += j
+		case strings.HasPrefix(s[i:], "<![CDATA["):
+			j := strings.Index(s[i:], "]]>") + 3
+			out = append(out, seg{3, s[i : i+j]})
+			i += j
+		case strings.HasPrefix(s[i:], "<?"):
+			j := strings.Index(s[i:], "?>") + 2
+			out = append(out, seg{3, s[i : i+j]})
+			i += j
+		case strings.HasPrefix(s[i:], "<!"):
+			j := strings.IndexByte(s[i:], '>') + 1
+			out = append(out, seg{3, s[i : i+j]})
+			i += j
+		case strings.HasPrefix(s[i:], "</"):
+			j := strings.IndexByte(s[i:], '>') + 1
+			out = append(out, seg{2, s[i : i+j]})
+			i += j
+		default:
+			// start tag: find the closing '>' outside quotes
+			j := i + 1
+			var q byte
+			for j < len(s) {
+				c := s[j]
+				if q != 0 {
+					if c == q {
+						q = 0
+					}
+				} else if c == '"' || c == '\'' {
+					q = c
+				} else if c == '>' {
+					break
+				}
+				j++
+			}
+			out = append(out, seg{1, s[i : j+1]})
+			i = j + 1
+		}
+	}
+	return out
+}
+
+func join(segs []seg) []byte {
+	var sb bytes.Buffer
+	for _, x := range segs {
+		sb.WriteString(x.s)
+	}
+	return sb.Bytes()
+}
+
+type attrTok struct{ name, val string } // val includes its quotes
+
+// splitTag parses "<name a="v" b='w'/>" into name, attributes, and whether it is empty.
+func splitTag(t string) (name string, attrs []attrTok, empty bool) {
+	body := t[1 : len(t)-1]
+	if strings.HasSuffix(body, "/") {
+		empty = true
+		body = body[:len(body)-1]
+	}
+	i := 0
+	for i < len(body) && !isSpace(body[i]) {
+		i++
+	}
+	name = body[:i]
+	for i < len(body) {
+		for i < len(body) && isSpace(body[i]) {
+			i++
+		}
+		if i >= len(body) {
+			break
+		}
+		j := i
+		for j < len(body) && body[j] != '=' && !isSpace(body[j]) {
+			j++
+		}
+		an := body[i:j]
+		for j < len(body) && (isSpace(body[j]) || body[j] == '=') {
+			j++
+		}
+		q := body[j]
+		k := j + 1
+		for k < len(body) && body[k] != q {
+			k++
+		}
+		attrs = append(attrs, attrTok{an, body[j : k+1]})
+		i = k + 1
+	}
+	return
+}
+
+func isSpace(c byte) bool { return c == ' ' || c == '\t' || c == '\n' || c == '\r' }
+
+func buildTag(name string, attrs []attrTok, empty bool, sep, tail string) string {
+	var sb strings.Builder
+	sb.WriteString("<" + name)
+	for _, a := range attrs {
+		sb.WriteString(sep + a.name + "=" + a.val)
+	}
+	sb.WriteString(tail)
+	if empty {
+		sb.WriteString("/>")
+	} else {
+		sb.WriteString(">")
+	}
+	return sb.String()
+}
+
+func mapTags(b []byte, f func(name string, attrs []attrTok, empty bool) string) []byte {
+	segs := segments(b)
+	for i, x := range segs {
+		if x.kind == 1 {
+			n, a, e := splitTag(x.s)
+			segs[i].s = f(n, a, e)
+		}
+	}
+	return join(segs)
+}
+
+func tagSingleQuotes(name string, attrs []attrTok, empty bool) string {
+	for i, a := range attrs {
+		if a.val[0] == '"' && !strings.Contains(a.val, "'") && !strings.Contains(a.val, "&quot;") {
+			attrs[i].val = "'" + a.val[1:len(a.val)-1] + "'"
+		}
+	}
+	return buildTag(name, attrs, empty, " ", "")
+}
+
+func tagReverseAttrs(name string, attrs []attrTok, empty bool) string {
+	for i, j := 0, len(attrs)-1; i < j; i, j = i+1, j-1 {
+		attrs[i], attrs[j] = attrs[j], attrs[i]
+	}
+	return buildTag(name, attrs, empty, " ", "")
+}
+
+func tagWhitespace(name string, attrs []attrTok, empty bool) string {
+	return buildTag(name, attrs, empty, "\n    ", " ")
+}
+
+func tagExpandEmpty(name string, attrs []attrTok, empty bool) string {
+	if !empty {
+		return buildTag(name, attrs, false, " ", "")
+	}
+	return buildTag(name, attrs, false, " ", "") + "</" + name + ">"
+}
+
+// tagCharRefAttr writes every 'e' inside attribute values as a character reference.
+func tagCharRefAttr(name string, attrs []attrTok, empty bool) string {
+	for i, a := range attrs {
+		if strings.HasPrefix(a.name, "xmlns") {
+			continue // keep namespace declarations literal (legal either way, but dull)
+		}
+		attrs[i].val = a.val[:1] + refE(a.val[1:len(a.val)-1]) + a.val[len(a.val)-1:]
+	}
+	return buildTag(name, attrs, empty, " ", "")
+}
+
+// refE replaces 'e' by &#x65; outside existing references.
+func refE(s string) string {
+	var sb strings.Builder
+	inRef := false
+	for i := 0; i < len(s); i++ {
+		c := s[i]
+		switch {
+		case c == '&':
+			inRef = true
+			sb.WriteByte(c)
+		case c == ';' && inRef:
+			inRef = false
+			sb.WriteByte(c)
+		case c == 'e' && !inRef:
+			sb.WriteString("&#x65;")
+		default:
+			sb.WriteByte(c)
+		}
+	}
+	return sb.String()
+}
+
+// mapText applies f to every text segment that lies inside the root element.
+func mapText(b []byte, f func(string) string) []byte {
+	segs := segments(b)
+	depth := 0
+	for i, x := range segs {
+		switch x.kind {
+		case 1:
+			if !strings.HasSuffix(x.s, "/>") {
+				depth++
+			}
+		case 2:
+			depth--
+		case 0:
+			if depth > 0 {
+				segs[i].s = f(x.s)
+			}
+		}
+	}
+	return join(segs)
+}
+
+func textCharRef(s string) string { return refE(s) }
+
+// textCDATA turns a text run into a CDATA section when that cannot change its value:
+// no "]]>" and no carriage return (a literal CR would be normalised to LF).
+func textCDATA(s string) string {
+	if strings.TrimSpace(s) == "" {
+		return s
+	}
+	raw, ok := unescapeText(s)
+	if !ok || strings.Contains(raw, "]]>") || strings.ContainsAny(raw, "\r") {
+		return s
+	}
+	return "<![CDATA[" + raw + "]]>"
+}
+
+func unescapeText(s string) (string, bool) {
+	var sb strings.Builder
+	for i := 0; i < len(s); i++ {
+		if s[i] != '&' {
+			sb.WriteByte(s[i])
+			continue
+		}
+		j := strings.IndexByte(s[i:], ';')
+		if j < 0 {
+			return "", false
+		}
+		switch s[i : i+j+1] {
+		case "&amp;":
+			sb.WriteByte('&')
+		case "&lt;":
+			sb.WriteByte('<')
+		case "&gt;":
+			sb.WriteByte('>')
+		case "&quot;":
+			sb.WriteByte('"')
+		case "&apos;":
+			sb.WriteByte('\'')
+		case "&#xD;":
+			sb.WriteByte('\r')
+		case "&#xA;":
+			sb.WriteByte('\n')
+		case "&#x9;":
+			sb.WriteByte('\t')
+		default:
+			return "", false
+		}
+		i += j
+	}
+	return sb.String(), true
+}
+
+// CheckLex reports an error if transformed does not parse to the same document as original
+// (compared through etree's canonical-mode writer; comments and processing instructions
+// outside the root are ignored).
+func CheckLex(original, transformed []byte) error {
+	norm := func(b []byte) (string, error) {
+		d := etree.NewDocument()
+		if err := d.ReadFromBytes(b); err != nil {
+			return "", err
+		}
+		r := d.Root()
+		if r == nil {
+			return "", fmt.Errorf("no root")
+		}
+		nd := etree.NewDocument()
+		nd.WriteSettings = etree.WriteSettings{CanonicalText: true, CanonicalAttrVal: true, CanonicalEndTags: true}
+		nd.SetRoot(sortAttrs(r.Copy()))
+		s, err := nd.WriteToString()
+		return s, err
+	}
+	a, err := norm(original)
+	if err != nil {
+		return fmt.Errorf("original: %v", err)
+	}
+	b, err := norm(transformed)
+	if err != nil {
+		return fmt.Errorf("transformed: %v", err)
+	}
+	if a != b {
+		return fmt.Errorf("lexical transform changed the parsed document")
+	}
+	return nil
+}
+
+func sortAttrs(el *etree.Element) *etree.Element {
+	el.SortAttrs()
+	// merge adjacent character data (CDATA sections arrive as separate tokens)
+	var merged []etree.Token
+	for _, c := range el.Child {
+		if cd, ok := c.(*etree.CharData); ok && len(merged) > 0 {
+			if prev, ok := merged[len(merged)-1].(*etree.CharData); ok {
+				merged[len(merged)-1] = etree.NewText(prev.Data + cd.Data)
+				continue
+			}
+			merged = append(merged, etree.NewText(cd.Data))
+			continue
+		} else if ok {
+			merged = append(merged, etree.NewText(cd.Data))
+			continue
+		}
+		merged = append(merged, c)
+	}
+	for len(el.Child) > 0 {
+		el.RemoveChildAt(0)
+	}
+	for _, c := range merged {
+		el.AddChild(c)
+	}
+	for _, c := range el.ChildElements() {
+		sortAttrs(c)
+	}
+	return el
+}
